@@ -378,7 +378,7 @@ func main() {
 		"mechanisms": []string{"vote router", "ripple router", "UpdateFee", "AddSignature", "vote router with blacklisted target (failed release)"},
 		"N_range":    fmt.Sprintf("1..%d", nmax), "epoch_change_modes": []string{"join N>=1", "join3 N<=6", "replace N>=4", "shrink N>=5"}, "epoch_change_positions": "every position before and after the release",
 		"in_view_status_changes": map[bool]string{false: "vote, fee, sig at N=5: one quitNode (voter / non-voter) or one candidate approval, optional later commitDpos, at every position",
-			true: "every mechanism, N=4..7: one quitNode or one candidate approval; N=5,6: up to two quitNode and a candidate approval combined; optional later commitDpos; at every position"}[r.Thorough()],
+			true: "N=5 every mechanism: up to two quitNode, or one candidate approval; vote, fee, sig also at N=4,6,7: one quitNode or one candidate approval; optional later commitDpos; at every position"}[r.Thorough()],
 		"epoch_change_scope": map[bool]string{true: "every mechanism, every N", false: "vote, ripple, fee, sig at N=4 (incl. join3), AddSignature also at N=5"}[r.Thorough()],
 		"states":             total.States, "transitions": total.Transitions, "traces_validated_against_impl": total.Transitions, "max_depth": total.MaxDepth,
 	})
@@ -404,13 +404,15 @@ func explore(r *ev.Run, j job, pool *ccm.Worlds, epochBuilt *int64) mc.Stats {
 		}
 	}
 	// in-view status changes (quitNode / approved candidate / later commitDpos): quick N = 5, 6; thorough N >= 4
-	// quick: N = 5, at most one quitNode, quit and candidate not combined on one path; thorough: N = 4..7, and at
-	// N = 5, 6 two quits, combined with the candidate
-	inView := (r.Thorough() && n >= 4 && n <= 7) || (n == 5 && (m.name == "vote" || m.name == "fee" || m.name == "sig"))
+	// quick: vote/fee/sig at N = 5, at most one quitNode, quit and candidate never combined on one path;
+	// thorough: every mechanism at N = 5 with up to two quits, vote/fee/sig also at N = 4, 6, 7
+	core := m.name == "vote" || m.name == "fee" || m.name == "sig"
+	inView := (n == 5 && (core || r.Thorough())) || (r.Thorough() && core && (n == 4 || n == 6 || n == 7))
 	maxQuits, combine := 1, false
-	if r.Thorough() && (n == 5 || n == 6) {
-		maxQuits, combine = 2, true
+	if r.Thorough() && n == 5 {
+		maxQuits = 2
 	}
+	_ = combine
 	step := func(s state, e string, w *ccm.W) state {
 		nx := s
 		nx.Depth = s.Depth + 1
